@@ -126,10 +126,62 @@ _CHECK = None
 _EXECUTED: list = []     # case indexes this process has executed, in order
 
 
+#: process environments every property must be indifferent to (see DESIGN 12.2)
+ENVIRONMENTS = ('debug-logging', 'numpy-quiet', 'optimized')
+
+
+class _EvaluatingHandler:
+    """A logging handler that formats every record, the way a real handler would."""
+    level = 0
+
+    def handle(self, record):
+        record.getMessage()
+        return True
+
+
+def _in_environment(name, fn):
+    """Run fn() with the process configured the way some applications configure it."""
+    if name == 'debug-logging':
+        # an application (or `emsarray -vvv`) that turned on debug logging for everything
+        import logging
+        logger = logging.getLogger('emsarray')
+        root = logging.getLogger()
+        handler = logging.Handler()
+        handler.emit = lambda record: record.getMessage()
+        saved = (logger.level, root.level, logger.propagate)
+        logger.setLevel(logging.DEBUG)
+        root.setLevel(logging.DEBUG)
+        logger.addHandler(handler)
+        try:
+            return fn()
+        finally:
+            logger.removeHandler(handler)
+            logger.setLevel(saved[0])
+            root.setLevel(saved[1])
+    if name == 'numpy-quiet':
+        # numerical code that runs under numpy.seterr(all='ignore')
+        import numpy
+        with numpy.errstate(all='ignore'):
+            return fn()
+    if name in (None, 'optimized'):
+        # 'optimized' is python -O: the interpreter was started that way (mc.child)
+        return fn()
+    raise ValueError(name)
+
+
 def _worker(item):
     index, case = item
     try:
-        result = _CHECK.run_case(case)
+        environment = case.get('environment') if isinstance(case, dict) else None
+        if environment == 'optimized' and __debug__:
+            raise RuntimeError("an 'optimized' case must run in a python -O interpreter (mc.child)")
+        began = time.time()
+        result = _in_environment(environment, lambda: _CHECK.run_case(case))
+        result['seconds'] = round(time.time() - began, 2)
+        if environment:
+            for violation in result['violations']:
+                violation['fingerprint'] += f"/in-environment/{environment}"
+                violation['what'] += f" [process environment: {environment}]"
         result['index'] = index
         # what this process ran before: a failure that needs shared state left behind by earlier cases
         # is replayed together with them
@@ -185,8 +237,96 @@ def _isolated(sequence):
     return pickle.loads(data)
 
 
+def _isolated_any(sequence, check, tier):
+    """_isolated, or a fresh python -O interpreter if the last case needs one."""
+    last = sequence[-1][1]
+    if not (isinstance(last, dict) and last.get('environment') == 'optimized'):
+        return _isolated(sequence)
+    import subprocess
+    child_env = dict(os.environ, PYTHONPATH=env.VERIF, VERIF_WORKERS='1')
+    proc = subprocess.run([sys.executable, '-O', '-m', 'mc.child', check.PROPERTY, tier], input=json.dumps(list(sequence), default=repr),
+                          capture_output=True, text=True, env=child_env, cwd=env.VERIF)
+    if proc.returncode != 0:
+        return {'harness_error': 'python -O child failed', 'traceback': proc.stderr[-3000:]}
+    return json.loads(proc.stdout.strip().splitlines()[-1])[-1]
+
+
+def coarse_environment_key(case, outcome):
+    """For checks whose cases are expensive: one case per part, family, grid kind and kind of history."""
+    spec = case.get('spec') if isinstance(case.get('spec'), dict) else case
+    history = spec.get('history') or []
+    return json.dumps([case.get('part'), spec.get('family'), case.get('kind'), case.get('regime'), case.get('policy'),
+                       bool(spec.get('explicit_names')), history[:1], case.get('first') if case.get('part') == 'sequence' else None,
+                       case.get('format'), case.get('path_form')], default=repr)
+
+
 def _worker_chunk(items):
     return [_worker(item) for item in items]
+
+
+def _execute(order, results, property_id) -> int:
+    """Run the (index, case) items on the worker pool; fills `results`.  Returns 0 or 2."""
+    total = len(order)
+    if not total:
+        return 0
+    workers = max(1, min(WORKERS, total))
+    chunksize = max(1, min(64, total // (workers * 8) or 1))
+    if workers == 1 or os.environ.get('VERIF_SERIAL'):
+        for item in order:
+            r = _worker(item)
+            results[r['index']] = r
+        return 0
+    import concurrent.futures as futures
+    chunks = [order[k:k + chunksize] for k in range(0, len(order), chunksize)]
+    ctx = multiprocessing.get_context('fork')
+    with futures.ProcessPoolExecutor(workers, mp_context=ctx) as pool:
+        pending = {pool.submit(_worker_chunk, chunk): chunk for chunk in chunks}
+        try:
+            for future in futures.as_completed(pending):
+                for r in future.result():
+                    results[r['index']] = r
+        except futures.process.BrokenProcessPool:
+            lost = [i for i, r in enumerate(results) if r is None]
+            print(f"HARNESS-ERROR property={property_id}: a worker process died; "
+                  f"{len(lost)} case(s) without result, first: {lost[:5]}")
+            return 2
+    return 0
+
+
+def _start_optimized(items, check, tier):
+    """Start `python -O` interpreters (asserts stripped), one per chunk of items; returns the running children."""
+    if not items:
+        return []
+    import subprocess
+    import tempfile
+    workers = max(1, min(WORKERS, len(items)))
+    chunks = [items[k::workers] for k in range(workers)]
+    child_env = dict(os.environ, PYTHONPATH=env.VERIF, VERIF_WORKERS='1')
+    children = []
+    for chunk in chunks:
+        payload = tempfile.TemporaryFile('w+')
+        json.dump(chunk, payload, default=repr)
+        payload.seek(0)
+        out = tempfile.TemporaryFile('w+')
+        err = tempfile.TemporaryFile('w+')
+        proc = subprocess.Popen([sys.executable, '-O', '-m', 'mc.child', check.PROPERTY, tier], stdin=payload, stdout=out, stderr=err,
+                                env=child_env, cwd=env.VERIF)
+        children.append((chunk, proc, out, err))
+    return children
+
+
+def _collect_optimized(children, results) -> int:
+    for chunk, proc, out, err in children:
+        proc.wait()
+        out.seek(0)
+        err.seek(0)
+        text = out.read()
+        if proc.returncode != 0 or not text.strip():
+            results[chunk[0][0]] = {'index': chunk[0][0], 'harness_error': 'python -O child failed', 'traceback': err.read()[-3000:]}
+            continue
+        for r in json.loads(text.strip().splitlines()[-1]):
+            results[r['index']] = r
+    return 0
 
 
 def load_known_findings() -> list[dict]:
@@ -200,6 +340,8 @@ def load_known_findings() -> list[dict]:
 
 
 def finding_for(findings: list[dict], property_id: str, fingerprint: str) -> dict | None:
+    # the same input failing the same way with the process configured differently is the same finding
+    fingerprint = re.sub(r'/in-environment/[a-z-]+$', '', fingerprint)
     for finding in findings:
         if finding.get('property') != property_id:
             continue
@@ -233,27 +375,52 @@ def run(check, tier: str, seed: int, replay: str | None = None) -> int:
     order = items[rotation:] + items[:rotation]
 
     results: list[dict | None] = [None] * total
-    workers = max(1, min(WORKERS, total))
-    chunksize = max(1, min(64, total // (workers * 8) or 1))
-    if workers == 1 or os.environ.get('VERIF_SERIAL'):
-        for item in order:
-            r = _worker(item)
-            results[r['index']] = r
-    else:
-        import concurrent.futures as futures
-        chunks = [order[k:k + chunksize] for k in range(0, len(order), chunksize)]
-        ctx = multiprocessing.get_context('fork')
-        with futures.ProcessPoolExecutor(workers, mp_context=ctx) as pool:
-            pending = {pool.submit(_worker_chunk, chunk): chunk for chunk in chunks}
-            try:
-                for future in futures.as_completed(pending):
-                    for r in future.result():
-                        results[r['index']] = r
-            except futures.process.BrokenProcessPool:
-                lost = [i for i, r in enumerate(results) if r is None]
-                print(f"HARNESS-ERROR property={property_id}: a worker process died; "
-                      f"{len(lost)} case(s) without result, first: {lost[:5]}")
-                return 2
+    status = _execute(order, results, property_id)
+    if status:
+        return status
+
+    # second phase: the same cases with the process configured differently.  Quick: the first case of every
+    # distinct outcome of the first phase (every behaviour the first phase saw); thorough: every case.
+    if not any(r is None or 'harness_error' in r for r in results):
+        environments = getattr(check, 'ENVIRONMENTS', ENVIRONMENTS)
+        if 'VERIF_ENVIRONMENTS' in os.environ:      # debugging aid: e.g. VERIF_ENVIRONMENTS= (none) or =optimized
+            environments = tuple(e for e in os.environ['VERIF_ENVIRONMENTS'].split(',') if e)
+        def default_key(case, outcome):
+            # one case per distinct outcome and per kind of case (which options it uses, not their sizes)
+            spec = case.get('spec') if isinstance(case.get('spec'), dict) else case
+            flags = sorted(k for k, v in spec.items() if v not in (None, False, 0) and k not in ('seed',))
+            return json.dumps([outcome, case.get('part'), spec.get('family'), flags, spec.get('history')], default=repr)
+        key_of = getattr(check, 'environment_key', default_key)
+        representatives = []
+        seen_keys = set()
+        for index, case in enumerate(list(cases)):
+            if case.get('environment') or case.get('child'):
+                continue
+            if getattr(check, 'environment_skip', lambda case: False)(case):
+                continue    # e.g. size canaries: one large instance, not a kind of behaviour
+            if tier != 'thorough':
+                key = key_of(case, results[index]['outcome'])
+            elif getattr(check, 'ENVIRONMENTS_ON_REPRESENTATIVES_ONLY', False):
+                key = default_key(case, results[index]['outcome'])
+            else:
+                key = index
+            if key not in seen_keys:
+                seen_keys.add(key)
+                representatives.append(case)
+        extra = []
+        for environment in environments:
+            for case in representatives:
+                extra.append((len(cases), dict(case, environment=environment)))
+                cases.append(extra[-1][1])
+        results.extend([None] * len(extra))
+        total = len(cases)
+        in_process = [item for item in extra if item[1]['environment'] != 'optimized']
+        optimized = [item for item in extra if item[1]['environment'] == 'optimized']
+        children = _start_optimized(optimized, check, tier)     # run alongside the worker pool
+        status = _execute(in_process, results, property_id)
+        _collect_optimized(children, results)
+        if status:
+            return status
 
     executed = sum(1 for r in results if r is not None)
     harness_errors = [r for r in results if r is not None and 'harness_error' in r]
@@ -265,6 +432,9 @@ def run(check, tier: str, seed: int, replay: str | None = None) -> int:
         print(f"harness errors: {len(harness_errors)}; executed {executed} of {total}")
         return 2
 
+    if os.environ.get('VERIF_TIMING'):
+        for r in sorted(results, key=lambda r: -r.get('seconds', 0))[:8]:
+            print(f"  {r.get('seconds')}s case {r['index']}: {json.dumps(cases[r['index']], default=repr)[:260]}")
     findings = load_known_findings()
     transitions = sum(r['transitions'] for r in results)
     states = sum(r.get('states', 1) for r in results)
@@ -301,7 +471,7 @@ def run(check, tier: str, seed: int, replay: str | None = None) -> int:
             if seen_fp[fp] > 2 or len(replay_paths) >= MAX_REPLAY_FILES:
                 continue
             # determinism guard: the same case must fail the same way when run again
-            again = _isolated([(index, cases[index])])
+            again = _isolated_any([(index, cases[index])], check, tier)
             again_fps = sorted(v['fingerprint'] for v in again.get('violations', []))
             first_fps = sorted(v['fingerprint'] for v in results[index]['violations'])
             preceding = []
@@ -310,7 +480,7 @@ def run(check, tier: str, seed: int, replay: str | None = None) -> int:
                 # case that fails after other cases but not alone points at state shared between objects
                 # in the code under test.  Replay it after the cases its worker ran before it.
                 preceding = results[index].get('preceding', [])
-                sequel = _isolated([(k, cases[k]) for k in preceding] + [(index, cases[index])])
+                sequel = _isolated_any([(k, cases[k]) for k in preceding] + [(index, cases[index])], check, tier)
                 sequel_fps = sorted(v['fingerprint'] for v in sequel.get('violations', []))
                 if 'harness_error' in sequel or sequel_fps != first_fps:
                     print(f"HARNESS-NONDETERMINISM property={property_id} case={index}: {first_fps} in its worker, "
@@ -390,6 +560,10 @@ def run_replay(check, path: str) -> int:
     with open(path) as f:
         data = json.load(f)
     case = data['case']
+    if isinstance(case, dict) and case.get('environment') == 'optimized' and __debug__:
+        # this case needs an interpreter started with -O
+        import subprocess
+        return subprocess.run([sys.executable, '-O', '-m', 'mc.run', check.PROPERTY, '--replay', path], cwd=env.VERIF).returncode
     if hasattr(check, 'prepare'):
         check.prepare(data.get('tier', 'quick'))
     for earlier in data.get('preceding_cases', []):
